@@ -88,7 +88,7 @@ PairReq(L, n, a, b, conj, v) == LET sa == Cardinal(L, <<a, 0, 0, 0>>, v)  sb == 
   [i |-> n, kind |-> "pair", lang |-> L, a |-> a, b |-> b, v |-> v, conj |-> conj, joiner |-> j,
    texts |-> <<sa \o j \o sb>>, thrs |-> <<"0">>, want |-> <<"rew">>]
 \* C10, second clause: punctuation between two spelled numbers keeps them apart
-Puncts == <<", ", "; ", ": ", "! ", "? ", " / ", " (", ") ", "… ", " – ", ". ", ",", " , ", "\" ">>
+Puncts == <<", ", "; ", ": ", "! ", "? ", " / ", " (", ") ", "… ", " – ", ". ", ",", " , ", "\" ", " - ", " — ", " -- ", ":", ";">>
 PunctReq(L, n, ga0, gb0, v, pu) == LET ga == Clean(L, ga0)  gb == Clean(L, gb0) IN
   [i |-> n, kind |-> "punct", lang |-> L, ga |-> ga, gb |-> gb, v |-> v, p |-> pu,
    texts |-> <<Cardinal(L, ga, v) \o pu \o Cardinal(L, gb, v)>>, thrs |-> <<"0">>, want |-> WantOr(<<"rew">>)]
